@@ -15,7 +15,8 @@ import sys
 
 from .. import core
 
-WATCHED_MODULES = ("transport.py", "setup.py", "statemachine.py", "process.py", "bromelia.py", "base.py")
+WATCHED_MODULES = ("transport.py", "setup.py", "statemachine.py", "process.py", "bromelia.py", "base.py",
+                   "_internal_utils.py")
 ATTR_OPS = {"LOAD_ATTR", "STORE_ATTR", "DELETE_ATTR", "LOAD_GLOBAL", "STORE_GLOBAL", "LOAD_METHOD", "LOAD_SUPER_ATTR"}
 STORE_OPS = {"STORE_ATTR", "DELETE_ATTR", "STORE_GLOBAL"}
 
